@@ -111,6 +111,11 @@ def cells(tier, seed):
                     for geom in GEOMS:
                         yield {"fam": "ml", "m": m, "n": n, "cat": k, "lp": lp, "ls": ls, "model": model,
                                "geom": geom, "starts": 2 if thorough else 1}
+    # ---- ml above the sparse-storage switch of the noise Gaussian (dimension 76 > 75)
+    for lp in PARAMS:
+        for ls in (("vector",) if not thorough else ("vector", "scalar", "diagonal")):
+            yield {"fam": "ml", "m": 76, "n": 2, "cat": k, "lp": lp, "ls": ls, "model": "matrix", "geom": "default",
+                   "starts": 2 if thorough else 1}
     # ---- lgopt
     for (m, n) in ([(3, 2), (3, 3), (2, 3)] if thorough else [(3, 2)]):
         for (lp, ls), (pp, ps) in _spec_pairs(thorough):
@@ -361,6 +366,12 @@ def _route(info):
     return "bfgs"      # Gaussian prior: BayesianProblem._solve_max_point uses scipy.optimize.minimize
 
 
+def _oplabel(st):
+    if st.endswith("direct"):
+        return "closed-form"
+    return "optimiser-reported-failure-but-returned" if st.endswith("flagged-failure") else "optimiser"
+
+
 def _refused_by_solver(info):
     return isinstance(info, dict) and "success" in info and not bool(info["success"])
 
@@ -412,8 +423,7 @@ def _op_estimate(size, k, cfg, which, x0=None, prep=None, judge_failed=False):
     except Exception as e:
         return "refused:" + type(e).__name__, {}, None
     info = getattr(xs, "info", None)
-    if _refused_by_solver(info) and not judge_failed:
-        return "refused:solver-reports-failure", {}, None
+    flagged = _refused_by_solver(info) and not judge_failed
     route = _route(info)
     kinds, met = _judge(np.asarray(xs), P.n, ref.logd, ref.grad, ref.sig, ref.Hn, route,
                         exact=ref.mean, Hinv_n=ref.Hinv_n, cancel=ref.cancel)
@@ -421,6 +431,12 @@ def _op_estimate(size, k, cfg, which, x0=None, prep=None, judge_failed=False):
            "logd_returned": (float(ref.logd(np.asarray(xs, float).ravel())) if np.size(xs) == P.n and
                              np.all(np.isfinite(np.asarray(xs, float))) else None),
            "logd_reference": float(ref.logd(ref.mean)) if ref.mean is not None else None}
+    if flagged:
+        # the optimiser reported failure but the call returned a point anyway: the statement allows "the call fails",
+        # not "another point is returned" - a flagged point that still is the maximiser is counted as a refusal
+        if not kinds:
+            return "refused:solver-reports-failure", {}, None
+        return "judged:" + route + "-flagged-failure", kinds, obs
     return "judged:" + route, kinds, obs
 
 
@@ -571,13 +587,28 @@ def _eval_lg(cell):
                 res.transitions += 4 * cell["n"]
                 if kinds:
                     map_bad = obs["returned"]
-                    _report(res, size, k, cfg, "closed-form" if st.endswith("direct") else "optimiser",
+                    _report(res, size, k, cfg, _oplabel(st),
                             "BayesianProblem.MAP", kinds, obs, lambda c: _op_estimate(size, k, c, "MAP", judge_failed=True))
                 elif res.sample is None:
                     res.sample = {"config": cfg, "MAP": obs["returned"], "closed_form": obs["reference"],
                                   "logd": obs["logd_returned"], "metrics": obs["metrics"]}
             elif not st.startswith("judged"):
                 res.refused += 1
+            # ---- MAP with a caller-supplied start point: the estimate is the same maximiser
+            if st.startswith("judged") and not kinds:
+                for x0v in (np.full(cell["n"], 0.3), refs.dyadic_vec(cell["n"], k + 6, scale=0.5)):
+                    st2, kinds2, obs2 = _op_estimate(size, k, cfg, "MAP", x0=x0v, prep=prep)
+                    res.transitions += 1
+                    res.outcomes.add("MAP(x0):" + st2 + (":" + "+".join(sorted(kinds2)) if kinds2 else ""))
+                    if st2.startswith("judged"):
+                        res.evaluations += 1
+                        if kinds2:
+                            res.fail("C15|BayesianProblem.MAP|%s-%s|x0=given" % ("closed-form" if st2.endswith("direct") else "optimiser",
+                                                                                  _primary(kinds2)),
+                                     "MAP(x0=%s) on %s: %s (MAP() without x0 is the maximiser)" % (
+                                         x0v.tolist(), _cfgstr(cfg), "; ".join(kinds2[q] for q in KIND_ORDER if q in kinds2)),
+                                     focus={"size": list(size), "config": cfg, "x0": x0v}, **(obs2 or {}))
+                            break
             # ---- direct sampling
             st, kinds, obs = _op_sample(size, k, cfg, prep=prep)
             res.transitions += 1
@@ -622,7 +653,7 @@ def _eval_ml(cell):
             res.evaluations += 1
             res.transitions += 4 * cell["n"]
             if kinds:
-                _report(res, size, k, cfg, "optimiser", "BayesianProblem.ML", kinds, obs,
+                _report(res, size, k, cfg, _oplabel(st), "BayesianProblem.ML", kinds, obs,
                         lambda c, x0=x0: _op_estimate(size, k, c, "ML", x0=x0, judge_failed=True), start=si)
             elif res.sample is None:
                 res.sample = {"config": cfg, "ML": obs["returned"], "closed_form": obs["reference"],
@@ -647,7 +678,7 @@ def _eval_lgopt(cell):
         res.evaluations += 1
         res.transitions += 4 * cell["n"]
         if kinds:
-            _report(res, size, k, cfg, "optimiser", "BayesianProblem.MAP", kinds, obs,
+            _report(res, size, k, cfg, _oplabel(st), "BayesianProblem.MAP", kinds, obs,
                     lambda c: _op_estimate(size, k, c, "MAP", judge_failed=True))
         else:
             res.sample = {"config": cfg, "MAP": obs["returned"], "closed_form": obs["reference"],
@@ -857,11 +888,7 @@ def _eval_nl(cell):
             res.state("%s:refused:%s" % (which, type(e).__name__))
             res.outcomes.add("%s:%s:refused:%s" % (which, name, type(e).__name__))
             continue
-        if _refused_by_solver(getattr(xs, "info", None)):
-            res.refused += 1
-            res.state("%s:solver-reports-failure" % which)
-            res.outcomes.add("%s:%s:solver-reports-failure" % (which, name))
-            continue
+        flagged = _refused_by_solver(getattr(xs, "info", None))
         xa = np.asarray(xs, float)
         res.state("%s:judged" % which)
         res.evaluations += 1
@@ -879,9 +906,12 @@ def _eval_nl(cell):
         near_kink = kink is not None and "shape" not in kinds and "nonfinite" not in kinds and kink(xa) < 1e-3
         res.outcomes.add("%s:%s:%s%s" % (which, name, "+".join(sorted(kinds)) or "ok", ":kink" if near_kink else ""))
         res.count("%s:judged" % which)
-        if kinds:
+        if flagged and not kinds:
+            res.refused += 1      # failure reported and the point still is the maximiser: counted as a refusal
+            res.outcomes.add("%s:%s:solver-reports-failure" % (which, name))
+        elif kinds:
             kind = _primary(kinds)
-            res.fail("C15|%s|optimiser-%s|problem=%s" % (comp, kind, name),
+            res.fail("C15|%s|%s-%s|problem=%s" % (comp, "optimiser-reported-failure-but-returned" if flagged else "optimiser", kind, name),
                      "%s of %s (variant %d): %s" % (which, name, var,
                                                     "; ".join(kinds[q] for q in KIND_ORDER if q in kinds)),
                      returned=xa, metrics=met, solver_info=getattr(xs, "info", None))
